@@ -13,7 +13,7 @@
    Invoke returns ([tools_exact]: the position-wise concatenation of the frames for the chat node,
    the frame-by-frame filter of direct_return; property C17, theorem tools_node_streams_exactly). *)
 From Coq Require Import Permutation.
-From Eino Require Import Base.Util Model.Tools Model.Graph Model.React Model.ReactGraph Model.Host Proofs.Tools Proofs.React Proofs.ReactExt Proofs.ReactStream Proofs.ReactGraph Proofs.Host.
+From Eino Require Import Base.Util Model.Tools Model.Graph Model.React Model.ReactGraph Model.ReactHeap Model.Host Proofs.Tools Proofs.React Proofs.ReactExt Proofs.ReactStream Proofs.ReactGraph Proofs.ReactHeap Proofs.Host.
 Local Open Scope nat_scope.
 Local Open Scope string_scope.
 
@@ -330,6 +330,41 @@ Theorem return_directly_by_id_refuted :
 Proof. exact return_directly_by_id_wrong. Qed.
 Print Assumptions return_directly_by_id_refuted.
 
+(* ---- the history as the Go slice it is (Model/ReactHeap.v) ----------------------------------- *)
+(* state.Messages over a heap of backing arrays, Go's append with an arbitrary growth policy, the
+   two state pre-handlers, the copy handed to a MessageModifier.  For every policy, MaxStep (the
+   initial capacity), modifier (any function: it may write whatever it likes into the slice it is
+   given) and every sequence of pre-handler executions:
+   the state's history reads exactly the messages appended so far, in order ... *)
+Theorem history_slice_is_what_was_appended :
+  forall pol modifier max_step ops,
+    ReactHeap.read (h_heap (hrun pol modifier max_step ops)) (h_msgs (hrun pol modifier max_step ops)) = appended ops.
+Proof. exact history_is_what_was_appended. Qed.
+Print Assumptions history_slice_is_what_was_appended.
+
+(* ... and every slice that was handed to the model - the state's own slice, sharing its backing
+   array, when there is no modifier - reads in the final heap what it read when it was handed
+   over: histories handed to the model are never modified afterwards *)
+Theorem histories_handed_to_the_model_are_never_modified :
+  forall pol modifier max_step ops,
+    Forall (fun p => ReactHeap.read (h_heap (hrun pol modifier max_step ops)) (fst p) = snd p)
+           (h_handed (hrun pol modifier max_step ops)).
+Proof. exact handed_never_modified. Qed.
+Print Assumptions histories_handed_to_the_model_are_never_modified.
+
+Theorem handed_histories_intact :
+  forall pol modifier max_step ops, handed_intact (hrun pol modifier max_step ops) = true.
+Proof. exact handed_intact_true. Qed.
+Print Assumptions handed_histories_intact.
+
+(* without a modifier the k-th model call is handed the history as it stands after the k-th
+   execution of the chat node's pre-handler *)
+Theorem without_modifier_the_model_is_handed_the_history :
+  forall pol max_step ops,
+    map snd (h_handed (hrun pol None max_step ops)) = seen_by_model [] ops.
+Proof. exact handed_without_modifier. Qed.
+Print Assumptions without_modifier_the_model_is_handed_the_history.
+
 (* KNOWN FINDING F-C18: the default first-chunk checker is not exact.  Witness: the model streams
    "Let me check. " and then the tool call; the chunks do concatenate to the scripted message,
    Generate runs the tool and answers "The answer is 42", Stream returns the tool-calling
@@ -491,6 +526,19 @@ Example late_stream_failure_is_met_one_node_later :
   let run := fun md n => t_out (agent_run tn tns ex_rd false (fun h => h) (fun _ => true) exact_checker md n script ex_input) in
   run Generate 2 = Failed (ETools 100) /\ run Stream 2 = Failed EStepLimit
   /\ run Generate 3 = Failed (ETools 100) /\ run Stream 3 = Failed (ETools 100).
+Proof. vm_compute. repeat split; reflexivity. Qed.
+(* the slice model on a run of two rounds, no modifier, MaxStep 5 (capacity 6) and a doubling
+   growth policy: the first two histories handed to the model share the state's first backing
+   array (array 0: the later appends to it happened in place, behind the handed slices), the
+   last append had to move the history to a new array - and every handed slice is intact *)
+Example heap_nonvacuous :
+  let ops := [HChat [1; 2]; HTools 3; HChat [4]; HTools 5; HChat [6; 7]]%N in
+  let st := hrun (fun c _ _ => 2 * c) None 5 ops in
+  map (fun p => sl_arr (fst p)) (h_handed st) = [0; 0; 1]
+  /\ map snd (h_handed st) = [[1; 2]; [1; 2; 3; 4]; [1; 2; 3; 4; 5; 6; 7]]%N
+  /\ List.length (h_heap st) = 2
+  /\ nth 0 (h_heap st) [] = [1; 2; 3; 4; 5; 0]%N
+  /\ handed_intact st = true.
 Proof. vm_compute. repeat split; reflexivity. Qed.
 (* the tools node of the examples answers in call order; the future's messages of the example run *)
 Example tn_in_order_nonvacuous : tn_in_order ex_tn.
